@@ -751,6 +751,10 @@ def sx_contains(container, item, negate=False):
 def _contains(container, item):
     if isinstance(item, Tainted) or isinstance(container, Tainted):
         (item if isinstance(item, Tainted) else container)._bad()
+    if hasattr(container, "__sx_contains__"):
+        return container.__sx_contains__(item)
+    if type(container).__name__ in ("dict_values", "dict_keys", "odict_values", "odict_keys"):
+        container = list(container)
     if isinstance(container, SymStr):
         return container.__contains__(item)
     if isinstance(item, SymStr):
@@ -807,6 +811,8 @@ def _contains(container, item):
 
 
 def sx_getitem(obj, key):
+    if hasattr(obj, "__sx_getitem__"):
+        return obj.__sx_getitem__(key)
     if isinstance(key, SymStr):
         if isinstance(obj, dict) or type(obj).__name__ == "mappingproxy":
             for k in _sym_key_candidates(obj, key):
@@ -828,6 +834,8 @@ def sx_getitem(obj, key):
 
 
 def sx_get(recv, args, kwargs):
+    if hasattr(recv, "__sx_getitem__"):
+        return recv.get(*args, **kwargs)
     if (isinstance(recv, dict) or type(recv).__name__ == "mappingproxy") and args and not kwargs:
         k = args[0]
         if isinstance(k, (SymStr, SymInt)):
